@@ -58,6 +58,10 @@ import (
 	"github.com/cloudwego/hertz/pkg/protocol/http1/ext"
 )
 
+// maxPeekedBodySize bounds the Content-Length up to which the body is taken out of the
+// connection buffer with a single Peek.
+const maxPeekedBodySize = 4 * 1024 * 1024
+
 var (
 	errRequestHostRequired    = errs.NewPublic("missing required Host header in request")
 	errRequestTargetLineBreak = errs.NewPublic("line break in the request target")
@@ -348,13 +352,19 @@ func ContinueReadBody(req *protocol.Request, r network.Reader, maxBodySize int, 
 
 		// This optimization is just suitable for ping-pong case and the ext.ReadBody is
 		// a common function, so we just handle this situation before ext.ReadBody
-		buf, err := r.Peek(contentLength)
-		if err != nil {
-			return err
+		//
+		// Peek(n) may reserve n bytes before any of them has arrived (the standard connection does):
+		// a length the peer merely announces is only peeked while it is small, larger bodies go
+		// through ext.ReadBody, which lets the buffers grow with the data that really arrives.
+		if contentLength <= maxPeekedBodySize {
+			buf, err := r.Peek(contentLength)
+			if err != nil {
+				return err
+			}
+			r.Skip(contentLength) // nolint: errcheck
+			req.SetBodyRaw(buf)
+			return nil
 		}
-		r.Skip(contentLength) // nolint: errcheck
-		req.SetBodyRaw(buf)
-		return nil
 	}
 
 	if contentLength == -2 {
